@@ -95,7 +95,7 @@ QC(a) == Red(a.k, a.m)
 X1 == VI(1, 0, 0)  Y1 == VI(0, 1, 0)  Z1 == VI(0, 0, 1)
 NQ(t) == CASE t = "pin" -> 1 [] t = "slider" -> 1 [] t = "weld" -> 0 [] t = "universal" -> 2 [] t = "cylinder" -> 2
            [] t = "bendstretch" -> 2 [] t = "planar" -> 3 [] t = "translation" -> 3 [] t = "gimbal" -> 3
-           [] t = "bushing" -> 6 [] t = "ball" -> 4 [] t = "free" -> 7
+           [] t = "bushing" -> 6 [] t = "ball" -> 4 [] t = "free" -> 7 [] t = "balle" -> 3 [] t = "freee" -> 6 [] t = "euler5" -> 5
 NU(t) == CASE t = "ball" -> 3 [] t = "free" -> 6 [] OTHER -> NQ(t)
 
 Def(t, qq, uu, ud) ==
@@ -127,7 +127,7 @@ Def(t, qq, uu, ud) ==
              w1 == VScale(U(1), X1)  w2 == VScale(U(2), y1)
          IN [Nothing EXCEPT !.R = MM(Rx, RotA("y", qq[2])), !.w = VAdd(w1, w2),
                             !.aw = VAdd(VAdd(VScale(A(1), X1), VScale(A(2), y1)), Cross(w1, w2))]
-    [] t \in {"gimbal", "bushing"} ->
+    [] t \in {"gimbal", "bushing", "euler5"} ->
          \* body-fixed x-y-z: R = Rx Ry Rz; u = qdot
          LET Rx == RotA("x", qq[1])  Rxy == MM(Rx, RotA("y", qq[2]))
              y1 == MV(Rx, Y1)  z2 == MV(Rxy, Z1)
@@ -136,12 +136,21 @@ Def(t, qq, uu, ud) ==
              aw == VAdd(VAdd(VAdd(VScale(A(1), X1), VScale(A(2), y1)), VScale(A(3), z2)),
                         VAdd(Cross(w1, w2), Cross(VAdd(w1, w2), w3)))
              tr == t = "bushing"
+             t5 == t = "euler5"       \* (user-defined only) three angles and x, y translation: five mobilities
          IN [R |-> MM(Rxy, RotA("z", qq[3])),
-             p |-> IF tr THEN V3(Lin(qq[4]), Lin(qq[5]), Lin(qq[6])) ELSE VZero,
+             p |-> IF tr THEN V3(Lin(qq[4]), Lin(qq[5]), Lin(qq[6])) ELSE IF t5 THEN V3(Lin(qq[4]), Lin(qq[5]), Zero) ELSE VZero,
              w |-> VAdd(VAdd(w1, w2), w3),
-             v |-> IF tr THEN V3(U(4), U(5), U(6)) ELSE VZero,
+             v |-> IF tr THEN V3(U(4), U(5), U(6)) ELSE IF t5 THEN V3(U(4), U(5), Zero) ELSE VZero,
              aw |-> aw,
-             av |-> IF tr THEN V3(A(4), A(5), A(6)) ELSE VZero]
+             av |-> IF tr THEN V3(A(4), A(5), A(6)) ELSE IF t5 THEN V3(A(4), A(5), Zero) ELSE VZero]
+    [] t \in {"balle", "freee"} ->
+         \* Ball / Free with the "use Euler angles" modelling option: orientation by body-fixed x-y-z angles as for a Gimbal,
+         \* but the speeds keep their meaning: u = w_FM in F (and v_FM in F)
+         LET fr == t = "freee" IN
+         [R |-> MM(MM(RotA("x", qq[1]), RotA("y", qq[2])), RotA("z", qq[3])),
+          p |-> IF fr THEN V3(Lin(qq[4]), Lin(qq[5]), Lin(qq[6])) ELSE VZero,
+          w |-> V3(U(1), U(2), U(3)), v |-> IF fr THEN V3(U(4), U(5), U(6)) ELSE VZero,
+          aw |-> V3(A(1), A(2), A(3)), av |-> IF fr THEN V3(A(4), A(5), A(6)) ELSE VZero]
     [] t \in {"ball", "free"} ->
          \* quaternion; u = w_FM in F (and v_FM in F)
          LET fr == t = "free" IN
@@ -176,27 +185,28 @@ ZeroU == TLCEval([i \in 1..N |-> [k \in 1..NU(desc[i].type) |-> 0]])
 
 Ground == [R |-> Ident, p |-> VZero, RF |-> Ident, pF |-> VZero, pM |-> VZero]
 \* pose of body i given the poses X of the bodies before it
-Pose(i, X) ==
+Pose(i, X, qq) ==
   LET P == IF desc[i].parent = 0 THEN Ground ELSE X[desc[i].parent]
       RGF == MM(P.R, FrameRot(desc[i].RF))
       pGF == VAdd(P.p, MV(P.R, desc[i].pF))
-      D == Rel(desc[i].type, desc[i].rev, q[i], ZeroU[i], ZeroU[i])
+      D == Rel(desc[i].type, desc[i].rev, qq[i], ZeroU[i], ZeroU[i])
       RGM == MM(RGF, D.R)
       pGM == VAdd(pGF, MV(RGF, D.p))
       RGB == MM(RGM, MT(FrameRot(desc[i].RM)))
       pGB == VSub(pGM, MV(RGB, desc[i].pM))
   IN [R |-> RGB, p |-> pGB, RF |-> RGF, pF |-> pGF, pM |-> pGM]
-RECURSIVE BuildX(_, _)
-BuildX(i, X) == IF i > N THEN X ELSE BuildX(i + 1, Append(X, Pose(i, X)))
-Poses == BuildX(1, <<>>)
+RECURSIVE BuildX(_, _, _)
+BuildX(i, X, qq) == IF i > N THEN X ELSE BuildX(i + 1, Append(X, Pose(i, X, qq)), qq)
+PosesQ(qq) == BuildX(1, <<>>, qq)
+Poses == PosesQ(q)
 
 \* spatial velocity and acceleration of body i's frame for speeds uu and speed derivatives ud
 GroundV == [w |-> VZero, v |-> VZero, aw |-> VZero, a |-> VZero]
-Vel(i, X, V, uu, ud) ==
+Vel(i, X, V, qq, uu, ud) ==
   LET P == IF desc[i].parent = 0 THEN GroundV ELSE V[desc[i].parent]
       XP == IF desc[i].parent = 0 THEN Ground ELSE X[desc[i].parent]
       Xi == X[i]
-      D == Rel(desc[i].type, desc[i].rev, q[i], uu[i], ud[i])
+      D == Rel(desc[i].type, desc[i].rev, qq[i], uu[i], ud[i])
       \* F origin (fixed in the parent)
       rF == VSub(Xi.pF, XP.p)
       vF == VAdd(P.v, Cross(P.w, rF))
@@ -213,9 +223,10 @@ Vel(i, X, V, uu, ud) ==
       rB == VSub(Xi.p, Xi.pM)
   IN [w |-> wM, v |-> VAdd(vM, Cross(wM, rB)), aw |-> awM,
       a |-> VAdd(aM, VAdd(Cross(awM, rB), Cross(wM, Cross(wM, rB))))]
-RECURSIVE BuildV(_, _, _, _, _)
-BuildV(i, X, V, uu, ud) == IF i > N THEN V ELSE BuildV(i + 1, X, Append(V, Vel(i, X, V, uu, ud)), uu, ud)
-Vels(X, uu, ud) == BuildV(1, X, <<>>, uu, ud)
+RECURSIVE BuildV(_, _, _, _, _, _)
+BuildV(i, X, V, qq, uu, ud) == IF i > N THEN V ELSE BuildV(i + 1, X, Append(V, Vel(i, X, V, qq, uu, ud)), qq, uu, ud)
+VelsQ(X, qq, uu, ud) == BuildV(1, X, <<>>, qq, uu, ud)
+Vels(X, uu, ud) == VelsQ(X, q, uu, ud)
 
 \* the mobilities, flattened in body order
 RECURSIVE DofsFrom(_)
@@ -289,6 +300,16 @@ Eval(dyn, ud, F, q2, u2, tasks) ==
       Hd == TLCEval([b \in 1..N |-> [f |-> FSa[b].f, t |-> VAdd(FSa[b].t, Cross(ComG(b, X), FSa[b].f))]])
       App == TLCEval([b \in 1..N |-> [f |-> Fb[b].f, t |-> VAdd(Fb[b].t, Cross(X[b].p, Fb[b].f))]])
       RO == TLCEval(BuildR(N, Hd, App, [b \in 1..N |-> WZero]))
+      \* the SAME model at the second coordinate / speed set (the real State object is re-used for it)
+      X2 == TLCEval(PosesQ(q2))
+      V2 == TLCEval(VelsQ(X2, q2, u2, ZeroU))
+      \* composite body: body b together with everything outboard of it, about b's origin, in Ground
+      InSub(c, b) == LET RECURSIVE In(_) In(x) == x = b \/ (x > b /\ desc[x].parent # 0 /\ In(desc[x].parent)) IN In(c)
+      Comp(b) == LET mem == TLCEval([c \in 1..N |-> InSub(c, b)])
+                     rel(c) == VSub(ComG(c, X), X[b].p) IN
+                 [mass |-> SumRS(TLCEval([c \in 1..N |-> IF mem[c] THEN Mass(c) ELSE Zero]), N),
+                  mcom |-> SumVS(TLCEval([c \in 1..N |-> IF mem[c] THEN VScale(Mass(c), rel(c)) ELSE VZero]), N),
+                  I |-> SumMS(TLCEval([c \in 1..N |-> IF mem[c] THEN MAdd(IcG(c, X), PointInertia(Mass(c), rel(c))) ELSE Diag(0, 0, 0)]), N)]
       \* task (station / frame) Jacobians: J*u is the velocity of the task frame; J'*F collects the task forces
       NT == Len(tasks)
       StG(k) == IF tasks[k].b = 0 THEN VZero ELSE MV(X[tasks[k].b].R, VI(tasks[k].st[1], tasks[k].st[2], tasks[k].st[3]))
@@ -310,6 +331,9 @@ Eval(dyn, ud, F, q2, u2, tasks) ==
       reactF |-> IF dyn THEN [b \in 1..N |-> LET w == WShift(RO[b], X[b].pF) IN [t |-> VNeg(w.t), f |-> VNeg(w.f)]] ELSE <<>>,
       \* pose and velocity of M in F (expressed in F) for the coordinates q2 and speeds u2: what a mobilizer fitted to
       \* them must reproduce
+      X2 |-> [b \in 1..N |-> [R |-> X2[b].R, p |-> X2[b].p]],
+      V2 |-> [b \in 1..N |-> [w |-> V2[b].w, v |-> V2[b].v]],
+      comp |-> [b \in 1..N |-> Comp(b)],
       taskV |-> [k \in 1..NT |-> TaskVel(Bu, k)],
       taskA0 |-> IF dyn THEN [k \in 1..NT |-> IF tasks[k].b = 0 THEN [aw |-> VZero, a |-> VZero]
                                 ELSE LET B == Vu[tasks[k].b]  r == StG(k) IN
